@@ -341,7 +341,7 @@ func HarnessC16Param() {
 	p.CommonValidations = genCV(typ)
 	var v interface{}
 	if typ == "array" {
-		p.Items = genItems(verifTier())
+		p.Items = genItems(1 + verifTier())
 		if verifChoose(4) == 0 {
 			v = "a"
 		} else {
